@@ -1722,13 +1722,22 @@ def r820_hash_sites(ctx, repo):
         f = repo.func(rel, q)
         cs = [c for c in walk(f) if isinstance(c, ast.Call) and (
             call_name(c) or "").split(".")[-1] == "hashfile"]
-        if len(cs) != 1:
-            raise AnalysisError(f"{rel}::{q}: expected one hashfile call")
-        n = nbytes(cs[0])
-        if n is None:
-            raise AnalysisError(f"{rel}::{q}: hashfile arguments cannot be "
-                                f"folded")
-        sites.append((q, cs[0], n))
+        if not cs:
+            ctx.note(f"R8.20: {q} has no direct hashfile call (moved to a "
+                     f"helper); the two digest sites are not compared")
+            return
+        ns = {nbytes(c) for c in cs}
+        if None in ns:
+            ctx.note(f"R8.20: hashfile arguments of {q} cannot be folded; "
+                     f"the two digest sites are not compared")
+            return
+        if len(ns) != 1:
+            ctx.ob("R8.20", False, f"{q} hashes different byte counts "
+                   f"{sorted(ns)} of the same file", node=cs[0],
+                   label="log suffix is the md5-5M digest of the command "
+                   "log")
+            return
+        sites.append((q, cs[0], ns.pop()))
     ok = sites[0][2] == sites[1][2]
     ctx.ob("R8.20", ok,
            f"compress and the command log hash the same {sites[0][2]} bytes "
